@@ -1,10 +1,52 @@
 /-
   EG.Driver.Tri — model side of the `tri.*` correspondence streams (harness/src/m_tri.rs).
 -/
-import EG.Driver.Util
+import EG.Driver.Line
+import EG.Model.Triangle
 namespace EG.Driver
 open EG
 
-def handleTri (_stream : String) (_t : Toks) : Option String := none
+private def triOf (t : Toks) : Triangle × Toks :=
+  let (a, t) := t.pt
+  let (b, t) := t.pt
+  let (c, t) := t.pt
+  (⟨a, b, c⟩, t)
+
+/-- Same digest as `bits_digest` in harness/src/m_tri.rs. -/
+private def triBitsDigest (bs : List Bool) : String :=
+  if bs.length ≤ 256 then fmtBits bs
+  else
+    let h := bs.foldl (fun h b => (h * 1000003 + (if b then 2 else 1)) % 18446744073709551616) 0
+    let ones := (bs.filter id).length
+    s!"n={bs.length},ones={ones},h={h}"
+
+/-- The bounding box grown by 2 px on every side. -/
+private def triGrown (bb : Rect) : Rect := ⟨⟨bb.tl.x - 2, bb.tl.y - 2⟩, ⟨bb.size.w + 4, bb.size.h + 4⟩⟩
+
+/-- number of distinct points of a list (row-major sort, then count the runs) -/
+private def triDistinct (ps : List Pt) : Nat :=
+  let sorted := ps.mergeSort ptLe
+  (sorted.foldl (fun (acc : Nat × Option Pt) p =>
+    if acc.2 == some p then acc else (acc.1 + 1, some p)) (0, none)).1
+
+def handleTri (stream : String) (t : Toks) : Option String :=
+  match stream with
+  | "tri.points" =>
+    let (tri, _) := triOf t
+    let bb := tri.boundingBox
+    let edgePts := tri.edgePoints
+    let bits := (triGrown bb).pointsSpec.map (fun p => tri.containsWith edgePts p)
+    some s!"bb={fmtRect bb} pts={fmtPtsDigest tri.points} in={triBitsDigest bits}"
+  | "tri.outline" =>
+    let (tri, _) := triOf t
+    let px := (tri.outlinePixels 1).map (·.1)
+    some s!"px={fmtPtsDigest px} n={triDistinct px}"
+  | "tri.pair" =>
+    let (a, t) := t.pt
+    let (b, t) := t.pt
+    let (c, t) := t.pt
+    let (d, _) := t.pt
+    some s!"p1={fmtPtsDigest (Triangle.points ⟨a, b, c⟩)} p2={fmtPtsDigest (Triangle.points ⟨a, c, d⟩)}"
+  | _ => none
 
 end EG.Driver
